@@ -536,6 +536,47 @@ def rule_listbox_zero_row_items(ctx: Ctx) -> RuleResult:
     return rr
 
 
+def rule_get_then_del(ctx: Ctx) -> RuleResult:
+    """Two beliefs about one key: `M.get(K, None)` says the key may be missing, `del M[K]` on the next line says it is
+    there.  One of them is wrong (Engler's contradiction rule); in CanvasCache.cleanup() it was the second - the
+    weak-reference callback of a canvas runs after invalidate() has already dropped its entry (a dependant
+    invalidated by an earlier callback of the same collection), `del cls._refs[ref]` raised KeyError inside the
+    callback and the rest of the clean-up (the widget's size table, its dependants) was skipped (fix e719b72).  In
+    canvas.py no `del M[K]` / `M[K]` follows an `M.get(K, ...)` of the same mapping and key unless it is protected
+    (suppress(KeyError) / try-except) or runs only where the looked-up value was tested."""
+    from ..rules.exc import ExcEngine
+
+    p = ctx.p
+    rr = RuleResult("GUARD", "C06.17", "a mapping key that is looked up with .get() (may be missing) is not deleted / subscripted unprotected in the same function", floor=1)
+    for fi in p.functions.values():
+        if fi.module.name != "urwid.canvas" or fi.is_lambda:
+            continue
+        gets = [c for c in fi.own_nodes() if isinstance(c, ast.Call) and isinstance(c.func, ast.Attribute) and c.func.attr in ("get", "pop") and len(c.args) >= 2]
+        if not gets:
+            continue
+        cfg = cfg_of(fi)
+        protected_lines = set()
+        for n in fi.own_nodes():
+            if isinstance(n, ast.With) and any("suppress" in ast.unparse(i.context_expr) for i in n.items):
+                protected_lines |= {x.lineno for x in ast.walk(n) if hasattr(x, "lineno")}
+            if isinstance(n, ast.Try) and any(h.type is not None and "KeyError" in ast.unparse(h.type) for h in n.handlers):
+                protected_lines |= {x.lineno for st in n.body for x in ast.walk(st) if hasattr(x, "lineno")}
+        for g in gets:
+            m, k = ast.unparse(g.func.value), ast.unparse(g.args[0])
+            rr.inst(f"{short(fi)}: {norm(g, 40)}", True, {"lookup": f"{short(fi)}: {norm(g, 50)}"} if len(rr.samples) < 6 else None)
+            if g.func.attr == "pop":
+                continue
+            for d in fi.own_nodes():
+                if isinstance(d, ast.Delete):
+                    for t in d.targets:
+                        if isinstance(t, ast.Subscript) and ast.unparse(t.value) == m and ast.unparse(t.slice) == k and d.lineno not in protected_lines and d.lineno > g.lineno:
+                            dn = next((n for n in cfg.nodes if n.ast is d), None)
+                            guarded = dn is not None and any(t2.kind == "test" and (dn not in ExcEngine._reach_without_edge(cfg, t2, "T") or dn not in ExcEngine._reach_without_edge(cfg, t2, "F")) for t2 in cfg.nodes)
+                            if not guarded:
+                                rr.add(finding("GUARD", fi, d, f"`{norm(g, 40)}` allows for a missing key, `{norm(d, 40)}` right after it does not: when the key is gone (an entry removed earlier by invalidate()) this raises KeyError - inside a weak-reference callback that means 'Exception ignored' and the rest of the clean-up is skipped", construct=f"{fi.name}: unprotected del after .get() of the same key"))
+    return rr
+
+
 def rule_list_mutators_notify(ctx: Ctx) -> RuleResult:
     """Pile / Columns / GridFlow invalidate themselves from the modified callback of their contents list; the override
     layer (MonitoredFocusList) must keep going through the wrapped MonitoredList method: exactly one super().<same
@@ -575,6 +616,7 @@ def run(ctx: Ctx):
         rule_depends_on_returned_canvas(ctx),
         rule_list_mutators_notify(ctx),
         rule_listbox_zero_row_items(ctx),
+        rule_get_then_del(ctx),
     ]
     return out
 
@@ -582,6 +624,7 @@ def run(ctx: Ctx):
 from ..mutants import Mut  # noqa: E402
 
 MUTANTS = [
+    Mut("cleanup-del-after-get", "urwid/canvas.py", "CanvasCache.cleanup", "        w = cls._refs.pop(ref, None)\n", "        w = cls._refs.get(ref, None)\n        del cls._refs[ref]\n", "GUARD|canvas.CanvasCache.cleanup|cleanup: unprotected del after .get() of the same key"),
     Mut("listbox-zero-row-item-not-recorded", "urwid/widget/listbox.py", "ListBox.calculate_visible", "            else:\n                self._zero_row_items.append(next_pos)\n", "", "HIDDEN-DEP|widget.listbox.ListBox.calculate_visible|zero-row filter on n_rows without a record"),
     Mut("listbox-zero-row-items-not-declared", "urwid/widget/listbox.py", "ListBox.render", "        if self._zero_row_items:\n", "        if False:\n", "HIDDEN-DEP|widget.listbox.ListBox.render|ListBox.render does not declare the zero-row items", also=[("*self._zero_row_items]", "]")]),
     Mut("depends-walk-two-levels", "urwid/canvas.py", "CanvasCache.store", "                    depends.extend(walk_depends(c))", "                    depends.extend(cc.widget_info[0] for _x, _y, cc, _pos in c.children if cc.widget_info)", "PASS|canvas.CanvasCache.store.<locals>.walk_depends|dependency walk does not recurse"),
